@@ -223,6 +223,14 @@ def conclude(mod, tier, seed, results, t0, replay=None, tmp=None, extra_cov=None
             msg = "shard %s ended rc=%s without result; log tail: %s" % (s, r["rc"], r["log"][-1500:].replace("\n", " | "))
             if crash_is_violation and r["rc"] != "timeout" and hasattr(mod, "crash_violation"):
                 violations.append(mod.crash_violation(s, r, seed, tier))
+            elif isinstance(r["rc"], int) and r["rc"] in (-4, -6, -7, -8, -11):
+                # SIGILL / SIGABRT / SIGBUS / SIGFPE / SIGSEGV: the interpreter running the real code on generated (documented-valid)
+                # input was killed by the code under test -- no result is a result.  (SIGKILL, e.g. the OOM killer, stays inconclusive.)
+                violations.append({"property": pid, "tag": "interpreter-died:signal-%d" % -r["rc"],
+                                   "what": "worker shard %s was killed by signal %d while running the workload; last output: %s" % (
+                                       s, -r["rc"], r["log"][-400:].replace("\n", " | ")),
+                                   "seed": seed, "tier": tier, "shard": s, "nshards": len(results), "idx": None,
+                                   "witness": {"log_tail": r["log"][-3000:]}})
             else:
                 inconclusive.append(msg)
             if res is None:
